@@ -9,8 +9,12 @@ pub mod c02;
 pub mod c03;
 pub mod c04;
 pub mod c05;
+pub mod c06;
+pub mod c07;
 pub mod c08;
+pub mod c09;
 pub mod c09e;
+pub mod c10;
 pub mod c10e;
 pub mod c11;
 pub mod c12;
@@ -26,6 +30,7 @@ pub mod c19e;
 pub mod cfgcommon;
 pub mod c20;
 pub mod diffcommon;
+pub mod doccommon;
 pub mod execcommon;
 pub mod expcommon;
 pub mod seqcommon;
@@ -50,12 +55,20 @@ pub fn by_id(id: &str) -> Option<Arc<dyn DynMonitor>> {
         "C14" => Arc::new(Erased(c14::C14)),
         "C15" => Arc::new(Erased(c15::C15)),
         "C20" => Arc::new(Erased(c20::C20)),
-        "C09" => Arc::new(Erased(c09e::C09e)),
+        "C06" => Arc::new(Erased(c06::C06)),
+        "C07" => Arc::new(Erased(c07::C07)),
+        "C09" => Arc::new(Multi {
+            id: "C09",
+            parts: vec![Arc::new(Erased(c09::C09)), Arc::new(Erased(c09e::C09e))],
+        }),
         "C19" => Arc::new(Multi {
             id: "C19",
             parts: vec![Arc::new(Erased(c19::C19)), Arc::new(Erased(c19e::C19e))],
         }),
-        "C10" => Arc::new(Erased(c10e::C10e)),
+        "C10" => Arc::new(Multi {
+            id: "C10",
+            parts: vec![Arc::new(Erased(c10::C10)), Arc::new(Erased(c10e::C10e))],
+        }),
         _ => return None,
     })
 }
